@@ -3,6 +3,12 @@ import gen
 import c19
 
 PROPS = {
+    "C15": dict(
+        files=[("op", "c15_op.rs")],
+        generators=[gen.gen_c15],
+        bounds="in: scalar needles against 2-3 element haystacks, all 9 number representation pairs with every payload, substring needle 1 char / haystack 2 chars; merge: <=3 operands of scalars and arrays of <=2 scalars",
+        out="object needles / key order (BTreeMap equality), nesting deeper than one level inside `in`, longer strings",
+    ),
     "C02": dict(
         files=[("op", "c02_op.rs")],
         generators=[gen.gen_c02],
